@@ -48,6 +48,7 @@ func init() {
 			{Name: "interp-check-conditional", File: "internal/engine/interpreter/interpreter.go", Old: "\t\t\tif err := m.FailIfClosed(); err != nil {\n\t\t\t\tpanic(err)\n\t\t\t}\n\t\t\t// m is the module of the immediate caller.", New: "\t\t\tif m.Closed.Load()>>32 != 0 {\n\t\t\t\tif err := m.FailIfClosed(); err != nil {\n\t\t\t\t\tpanic(err)\n\t\t\t\t}\n\t\t\t}\n\t\t\t// m is the module of the immediate caller.", Rule: "R07.2", Substr: "interpreter"},
 			{Name: "interp-check-only-immediate-caller", File: "internal/engine/interpreter/interpreter.go", Old: "\t\t\tif root := ce.f.moduleInstance; root != m {\n\t\t\t\tif err := root.FailIfClosed(); err != nil {\n\t\t\t\t\tpanic(err)\n\t\t\t\t}\n\t\t\t}\n", New: "", Rule: "R07.4", Substr: "interpreter"},
 			{Name: "watcher-unregisters-before-flag", File: "internal/wasm/module_instance.go", Old: "\tif !m.setExitCode(exitCode, exitCodeFlagResourceNotClosed) {\n\t\treturn nil // not an error to have already closed\n\t}\n\t_ = m.s.deleteModule(m)\n\treturn nil\n", New: "\t_ = m.s.deleteModule(m)\n\tm.setExitCode(exitCode, exitCodeFlagResourceNotClosed)\n\treturn nil\n", Rule: "R07.5", Substr: "closed flag"},
+			{Name: "interp-precheck-does-not-close", File: "internal/engine/interpreter/interpreter.go", Old: "\t\t\tm.CloseWithCtxErr(ctx)\n\t\t\treturn nil, m.FailIfClosed()\n", New: "\t\t\treturn nil, ctx.Err()\n", Rule: "R07.3", Substr: "pre-check"},
 			{Name: "wazevo-watcher-not-started", File: "internal/engine/wazevo/call_engine.go", Old: "\tif ensureTermination {\n\t\tdone := m.CloseModuleOnCanceledOrTimeout(ctx)\n\t\tdefer done()\n\t}\n", New: "", Rule: "R07.3", Substr: "wazevo"},
 			{Name: "watcher-deadline-unmapped", File: "internal/wasm/module_instance.go", Old: "\t\t\tcase errors.Is(ctx.Err(), context.DeadlineExceeded):\n\t\t\t\t// TODO: figure out how to report error here.\n\t\t\t\t_ = m.closeWithExitCodeWithoutClosingResource(sys.ExitCodeDeadlineExceeded)\n", New: "", Rule: "R07.3", Substr: "DeadlineExceeded"},
 		},
@@ -690,7 +691,16 @@ func runC07(c *core.Ctx) {
 			})
 			c.Check(watcherOK, "R07.3", e.name+" watcher in "+name, wcall.Pos(), "watcher started under the flag and its cancel deferred",
 				"CloseModuleOnCanceledOrTimeout is not started under exactly the flag with its cancel function deferred")
-			c.Check(preOK && (watcherPos == 0 || prePos < watcherPos), "R07.3", e.name+" pre-check in "+name, fd.Pos(), "ctx.Done() tested first: closes with the context error and returns FailIfClosed's error",
+			_, _ = prePos, watcherPos
+			preOK = false
+			if tf, _ := ep.TypesInfo.Defs[fd.Name].(*types.Func); tf != nil {
+				for _, ef := range callEntries(c, e.enginePkg, closeOnCancel, closeWithCtxErr, failIfClosed) {
+					if ef.entry.Object() == types.Object(tf) && ef.pre {
+						preOK = true
+					}
+				}
+			}
+			c.Check(preOK, "R07.3", e.name+" pre-check in "+name, fd.Pos(), "ctx.Done() tested first: closes with the context error and returns FailIfClosed's error",
 				"no ctx.Done() pre-check (close with the context error and return) before the guest is entered")
 		})
 		if n == 0 {
